@@ -151,6 +151,48 @@ class Program:
         return [i for i in self.impls if i["trait"] == trait_path and self_pred(self.types[i["self_ty"]])]
 
 
+def canonicalise_params(prog, path, order):
+    """Present function `path` as if its parameters were declared in the order `order` (1-based actual positions listed in canonical order): the
+    locals of its body and the argument lists of every call of it are permuted in the fact set.  Parameter order of a private function is not
+    behaviour; rules written against one order then apply to any."""
+    raw = prog._bodies_raw.get(path)
+    if raw is None or raw.get("_canon") or list(order) == list(range(1, len(order) + 1)):
+        return
+    perm = {a: c for c, a in enumerate(order, 1)}
+
+    def walk(x):
+        if isinstance(x, dict):
+            if isinstance(x.get("l"), int) and x["l"] in perm:
+                x["l"] = perm[x["l"]]
+            if isinstance(x.get("ix"), int) and x["ix"] in perm:
+                x["ix"] = perm[x["ix"]]
+            for k, v in x.items():
+                if k not in ("l", "ix"):
+                    walk(v)
+        elif isinstance(x, list):
+            for v in x:
+                walk(v)
+    walk(raw["blocks"])
+    for d in raw.get("debug", []):
+        walk(d.get("place"))
+        if d.get("arg") in perm:
+            d["arg"] = perm[d["arg"]]
+    raw["debug"].sort(key=lambda d: (d.get("arg") is None, d.get("arg") or 0))
+    locs = raw["locals"]
+    raw["locals"] = [locs[0]] + [locs[a] for a in order] + locs[len(order) + 1:]
+    f = prog.fns.get(path)
+    if f is not None and len(f.get("inputs", [])) == len(order):
+        f["inputs"] = [f["inputs"][a - 1] for a in order]
+    name = strip_generics(path)
+    for braw in prog._bodies_raw.values():
+        for blk in braw["blocks"]:
+            t = blk["term"]
+            if t["k"] == "call" and strip_generics(t.get("resolved") or t.get("callee") or "") == name and len(t["args"]) == len(order):
+                t["args"] = [t["args"][a - 1] for a in order]
+    raw["_canon"] = True
+    prog._bodies.clear()
+
+
 class AnchorError(Exception):
     pass
 
